@@ -378,6 +378,7 @@ def finish(M, rec, write=True):
         nv, ni = rec.counters.get("valid_networks", 0), rec.counters.get("invalid_networks", 0)
         rec.gate(nv >= 0.02 * (nv + ni), "fewer than 2 % valid networks")
         rec.gate(rec.counters.get("monitor_internal_errors", 0) == 0, "monitor internal errors")
+    rec.extra["exhaustive_subspaces"] = [f"all labelled digraphs with self-loops on <= {rec.extra.get('exhaustive_up_to_nodes')} nodes x 10 roles per node, both raises modes"]
     return rec.finish(
         "is_valid_calls",
         ["violated_sets"],
